@@ -462,7 +462,7 @@ fn union_ctors(parts: &[&RtType]) -> Option<Vec<String>> {
 }
 
 /// constructor set and bounds of a union of parts
-fn merge(parts: &[&RtType]) -> (Option<Vec<String>>, Option<(Vec<String>, Vec<String>)>) {
+pub fn merge(parts: &[&RtType]) -> (Option<Vec<String>>, Option<(Vec<String>, Vec<String>)>) {
     let ctors = union_ctors(parts);
     if ctors.is_none() {
         return (None, None);
@@ -573,6 +573,56 @@ impl<'a, 'b> RtGen<'a, 'b> {
                     inhabitants: vec![inh("Function")],
                     depth: 0,
                 },
+            };
+        }
+        // types whose values are known although the statement does not spell the construct out:
+        // bounds plus the inhabitant test (Vue must accept the values of the declared type)
+        if self.c.chance(1, 12) {
+            self.label("atom=wrapper/readonly/inherited-callable/array-length");
+            let nocheck = "*nocheck".to_string();
+            return match self.c.pick(5) {
+                0 => RtType {
+                    text: self.c.choose(&["Array<string>[\"length\"]", "string[][\"length\"]", "[string, number][\"length\"]"]).to_string(),
+                    ctors: Some(vec!["Number".into()]),
+                    loose: Some((vec![], vec!["Number".into(), nocheck])),
+                    inhabitants: vec![inh("Number")],
+                    depth: 1,
+                },
+                1 => {
+                    let w = self.c.choose(&["String", "Number", "Boolean"]).to_string();
+                    RtType {
+                        text: w.clone(),
+                        ctors: Some(vec![w.clone()]),
+                        loose: Some((vec![], vec![w.clone(), "Object".into(), nocheck])),
+                        inhabitants: vec![inh(&w)],
+                        depth: 0,
+                    }
+                }
+                2 => Self::mk(self.c.choose(&["readonly string[]", "readonly [string, number]", "readonly (readonly number[])[]"]), &["Array"], 1),
+                3 => {
+                    let cb = self.fresh("CB");
+                    let nc = self.fresh("NC");
+                    self.decls.push(format!("interface {cb} {{ (): void }}"));
+                    self.decls.push(format!("interface {nc} extends {cb} {{}}"));
+                    RtType {
+                        text: nc,
+                        ctors: Some(vec!["Function".into()]),
+                        loose: Some((vec![], vec!["Function".into(), "Object".into(), nocheck])),
+                        inhabitants: vec![inh("Function")],
+                        depth: 1,
+                    }
+                }
+                _ => {
+                    let nc = self.fresh("NF");
+                    self.decls.push(format!("interface {nc} extends Function {{ tag?: string }}"));
+                    RtType {
+                        text: nc,
+                        ctors: Some(vec!["Function".into()]),
+                        loose: Some((vec![], vec!["Function".into(), "Object".into(), nocheck])),
+                        inhabitants: vec![inh("Function")],
+                        depth: 1,
+                    }
+                }
             };
         }
         let i = self.c.pick(atoms.len() + 2);
